@@ -266,7 +266,9 @@ func genClaim(r *rand.Rand, t core.Tier) any {
 		switch x := r.Float64(); {
 		case x < 0.55:
 		case x < 0.9:
-			in.Nodes = append(in.Nodes, NodeRefIn{Name: "node-0", Deleting: r.Float64() < 0.5, Held: r.Float64() < 0.8})
+			// mostly the Node the claim names (status.nodeName = node-0); sometimes only a Node under another name
+			// carries the provider id (re-registered kubelet)
+			in.Nodes = append(in.Nodes, NodeRefIn{Name: pick(r, []string{"node-0", "node-0", "node-1"}), Deleting: r.Float64() < 0.5, Held: r.Float64() < 0.8})
 		default:
 			in.Nodes = append(in.Nodes, NodeRefIn{Name: "node-0", Deleting: r.Float64() < 0.5, Held: r.Float64() < 0.8},
 				NodeRefIn{Name: "node-1", Deleting: r.Float64() < 0.5, Held: r.Float64() < 0.8})
@@ -294,6 +296,11 @@ func enumClaim(_ core.Tier) []any {
 		{{Name: "node-0", Held: false}},
 		{{Name: "node-0", Held: true}, {Name: "node-1", Held: true, Deleting: true}},
 		{{Name: "node-x", Held: true, OtherPID: true}},
+		// the Node that status.nodeName names is gone, but the instance is still represented by a Node object under
+		// another name (the kubelet re-registered under a new node name): it is a Node of the claim all the same
+		{{Name: "node-1", Held: true}},
+		{{Name: "node-1", Held: true, Deleting: true}},
+		{{Name: "node-1", Held: false}, {Name: "node-2", Held: true}},
 	}
 	for _, reg := range []string{"True", "Unknown", "False"} {
 		for _, inst := range []string{"running", "terminating", "gone"} {
@@ -347,6 +354,17 @@ func claimLabels(raw json.RawMessage, impl any) []string {
 	l := []string{fmt.Sprintf("nodes=%d", len(in.Nodes)), "instance=" + in.Instance, "registered=" + in.Claim.Registered, fmt.Sprintf("pid=%v", in.Claim.PID), fmt.Sprintf("deleting=%v", in.Claim.Deleting)}
 	if in.Claim.Fresh {
 		l = append(l, "fresh")
+	}
+	named, renamed := false, false
+	for _, n := range in.Nodes {
+		if !n.OtherPID && n.Name == nodeNm {
+			named = true
+		} else if !n.OtherPID {
+			renamed = true
+		}
+	}
+	if renamed && !named {
+		l = append(l, "nodes:only-under-another-name")
 	}
 	if o, ok := impl.(map[string]any); ok {
 		calls := nodeReached(o)
